@@ -109,7 +109,7 @@ class Path:
         self.log = []
         self.cons = []  # forms known >= 0
         self.subst = {}  # Sym -> Aff
-        self.memo = {}
+        self.memo = _Memo()
         self.events = []  # free-form records made by the interpreter (mutations, raises, ...)
         self.closed = False  # set when the task has returned: later queries must not fork
 
@@ -125,6 +125,36 @@ class Path:
         self.pos += 1
         self.log.append((label, v))
         return v
+
+
+class _Keys:
+    """A memo entry is registered under the key of the form as written (stable between two
+    evaluations of the same expression) and under its normal form at creation time."""
+
+    def __init__(self, *keys):
+        self.keys = keys
+
+
+class _Memo(dict):
+    def __contains__(self, k):
+        if isinstance(k, _Keys):
+            return any(dict.__contains__(self, x) for x in k.keys)
+        return dict.__contains__(self, k)
+
+    def __getitem__(self, k):
+        if isinstance(k, _Keys):
+            for x in k.keys:
+                if dict.__contains__(self, x):
+                    return dict.__getitem__(self, x)
+            raise KeyError(k)
+        return dict.__getitem__(self, k)
+
+    def __setitem__(self, k, v):
+        if isinstance(k, _Keys):
+            for x in k.keys:
+                dict.__setitem__(self, x, v)
+        else:
+            dict.__setitem__(self, k, v)
 
 
 P = None  # current path (set by explore)
@@ -395,12 +425,15 @@ def divmod_const(x, M):
     M = int(M)
     if M <= 0:
         raise AnalysisError("engine B: division by non-positive constant %r" % M)
+    raw = ("divmod", Aff.of(x).key(), M)
+    if raw in P.memo:
+        return P.memo[raw]
     x = norm(x)
     if x.is_const():
         if x.c.denominator != 1:
             raise AnalysisError("engine B: non-integer constant")
         return Aff(int(x.c) // M), Aff(int(x.c) % M)
-    k = ("divmod", x.key(), M)
+    k = _Keys(raw, ("divmod", x.key(), M))
     if k in P.memo:
         return P.memo[k]
     # syntactic decomposition x = M*A + B with B in [0, M-1]
@@ -433,13 +466,16 @@ def divmod_const(x, M):
 
 def mod_sym(x, m):
     """x % m for a modulus proved positive: fresh r with 0 <= r <= m-1 (Python floor semantics)."""
+    raw = ("mod", Aff.of(x).key(), Aff.of(m).key())
+    if raw in P.memo:
+        return P.memo[raw]
     x, m = norm(x), norm(m)
     if m.is_const():
         return divmod_const(x, int(m.c))[1]
     lo, _ = bounds(m)
     if lo is None or lo < 1:
         raise AnalysisError("engine B: modulus not provably positive: %r" % m)
-    k = ("mod", x.key(), m.key())
+    k = _Keys(raw, ("mod", x.key(), m.key()))
     if k in P.memo:
         return P.memo[k]
     _, mh = bounds(m)
@@ -450,13 +486,16 @@ def mod_sym(x, m):
 
 
 def mul(a, b):
+    raw = ("mul",) + tuple(sorted([Aff.of(a).key(), Aff.of(b).key()]))
+    if raw in P.memo:
+        return P.memo[raw]
+    ra, rb = Aff.of(a), Aff.of(b)
     a, b = norm(a), norm(b)
     if a.is_const():
-        return b.scale(a.c)
+        return rb.scale(a.c)  # keep the other operand as written: later memo keys depend on it
     if b.is_const():
-        return a.scale(b.c)
-    ka, kb = a.key(), b.key()
-    k = ("mul",) + tuple(sorted([ka, kb]))
+        return ra.scale(b.c)
+    k = _Keys(raw, ("mul",) + tuple(sorted([a.key(), b.key()])))
     if k in P.memo:
         return P.memo[k]
     (al, ah), (bl, bh) = bounds(a), bounds(b)
@@ -471,7 +510,10 @@ def mul(a, b):
 
 def uninterp(name, args, lo=None, hi=None):
     """Uninterpreted integer function of forms, memoised per path by normal form."""
-    k = ("fn", name) + tuple(norm(Aff.of(a)).key() if isinstance(a, (Aff, int)) else a for a in args)
+    raw = ("fn", name) + tuple(Aff.of(a).key() if isinstance(a, (Aff, int)) else a for a in args)
+    if raw in P.memo:
+        return P.memo[raw]
+    k = _Keys(raw, ("fn", name) + tuple(norm(Aff.of(a)).key() if isinstance(a, (Aff, int)) else a for a in args))
     if k in P.memo:
         return P.memo[k]
     r = fresh("%s(%s)" % (name, ", ".join(repr(a) for a in args)), lo, hi)
